@@ -75,6 +75,16 @@ type Item struct {
 	Cond      ssa.Value
 	CondFrame *Frame // the frame Cond is to be described in (the callee's, when it is a helper's result)
 	CondNeg   bool   // Cond is the negation of the branch condition (`if !helper()`)
+	// Args, for call items, are the call's arguments as they are on this path: φs resolved to the
+	// operand the path came through, results of inlined helpers to the value their taken return
+	// yields, local cells to the value last stored, parameters of inlined frames to the caller's argument.
+	Args []PathVal
+}
+
+// PathVal is a value together with the frame it is to be described in.
+type PathVal struct {
+	V  ssa.Value
+	Fr *Frame
 }
 
 type Trace struct {
@@ -85,6 +95,7 @@ type Trace struct {
 	Recovered bool // a deferred call recovered the panic
 	sig       string
 	facts     map[string]factVal
+	final     *walkState // the path's selections (φ operands, helper returns, cells) when it ended
 }
 
 func (t *Trace) Labels() []string {
@@ -175,11 +186,13 @@ type walkState struct {
 	visits   map[*ssa.BasicBlock]int
 	defers   []*ssa.Defer
 	items    []Item
-	decided  map[ssa.Value]bool    // branch decisions taken on this path (frame-local values)
-	cells    map[*ssa.Alloc]AbsVal // abstract contents of local variable cells (spilled results)
-	facts    map[string]factVal    // what earlier branches/stores established about memory locations
+	decided  map[ssa.Value]bool     // branch decisions taken on this path (frame-local values)
+	cells    map[*ssa.Alloc]AbsVal  // abstract contents of local variable cells (spilled results)
+	facts    map[string]factVal     // what earlier branches/stores established about memory locations
 	phiSel   map[*ssa.Phi]ssa.Value // which operand each φ took the last time the path entered its block
-	callRet  map[*ssa.Call]retSel    // for an inlined single-result helper: the value its taken return yields
+	callRet  map[*ssa.Call]retSel   // for an inlined single-result helper: the value its taken return yields
+	tupleRet map[*ssa.Call][]retSel // the same for an inlined helper with several results
+	cellSel  map[*ssa.Alloc]retSel  // the value last stored into a local variable cell on this path
 	panicing bool
 	recov    bool
 }
@@ -187,6 +200,38 @@ type walkState struct {
 type retSel struct {
 	v  ssa.Value
 	fr *Frame
+}
+
+// adopt takes over the selections a finished callee path made (they describe values the caller may
+// go on to test: the helper's result, a φ inside it).
+func (w *walkState) adopt(f *walkState) {
+	if f == nil {
+		return
+	}
+	for k, v := range f.phiSel {
+		if w.phiSel == nil {
+			w.phiSel = map[*ssa.Phi]ssa.Value{}
+		}
+		w.phiSel[k] = v
+	}
+	for k, v := range f.callRet {
+		if w.callRet == nil {
+			w.callRet = map[*ssa.Call]retSel{}
+		}
+		w.callRet[k] = v
+	}
+	for k, v := range f.tupleRet {
+		if w.tupleRet == nil {
+			w.tupleRet = map[*ssa.Call][]retSel{}
+		}
+		w.tupleRet[k] = v
+	}
+	for k, v := range f.cellSel {
+		if w.cellSel == nil {
+			w.cellSel = map[*ssa.Alloc]retSel{}
+		}
+		w.cellSel[k] = v
+	}
 }
 
 func (w *walkState) clone() *walkState {
@@ -206,6 +251,14 @@ func (w *walkState) clone() *walkState {
 	n.callRet = make(map[*ssa.Call]retSel, len(w.callRet))
 	for k, v := range w.callRet {
 		n.callRet[k] = v
+	}
+	n.tupleRet = make(map[*ssa.Call][]retSel, len(w.tupleRet))
+	for k, v := range w.tupleRet {
+		n.tupleRet[k] = v
+	}
+	n.cellSel = make(map[*ssa.Alloc]retSel, len(w.cellSel))
+	for k, v := range w.cellSel {
+		n.cellSel[k] = v
 	}
 	n.facts = make(map[string]factVal, len(w.facts))
 	for k, v := range w.facts {
@@ -367,7 +420,7 @@ func (s *Spec) walkBlock(fr *Frame, b *ssa.BasicBlock, pred *ssa.BasicBlock, st 
 			return
 		case *ssa.Return:
 			s.note(fr, in, st)
-			t := &Trace{Items: st.items, Exit: ExitNormal, RetInstr: x, Recovered: st.recov, facts: st.facts}
+			t := &Trace{Items: st.items, Exit: ExitNormal, RetInstr: x, Recovered: st.recov, facts: st.facts, final: st}
 			for _, r := range x.Results {
 				t.Ret = append(t.Ret, s.abs(r, st))
 			}
@@ -403,6 +456,11 @@ func (s *Spec) walkBlock(fr *Frame, b *ssa.BasicBlock, pred *ssa.BasicBlock, st 
 		case *ssa.Store:
 			if a, ok := x.Addr.(*ssa.Alloc); ok {
 				st.cells[a] = s.abs(x.Val, st)
+				if st.cellSel == nil {
+					st.cellSel = map[*ssa.Alloc]retSel{}
+				}
+				rv, rf := st.resolve(x.Val, fr)
+				st.cellSel[a] = retSel{v: rv, fr: rf}
 			}
 			s.storeFact(fr, x, st)
 			s.note(fr, in, st)
@@ -434,8 +492,82 @@ func (s *Spec) note(fr *Frame, in ssa.Instruction, st *walkState) {
 		case *ssa.Go:
 			l = "go:" + l
 		}
-		st.items = append(st.items, Item{Label: l, Instr: in, Frame: fr})
+		it := Item{Label: l, Instr: in, Frame: fr}
+		if ci, isCall := in.(ssa.CallInstruction); isCall {
+			for _, a := range ci.Common().Args {
+				rv, rf := st.resolve(a, fr)
+				it.Args = append(it.Args, PathVal{V: rv, Fr: rf})
+			}
+		}
+		st.items = append(st.items, it)
 	}
+}
+
+// resolve follows a value back along the current path: through the φ operand the path came
+// through, the value an inlined helper's taken return yields, the value last stored into a local
+// cell (also one captured by a closure), and from a parameter of an inlined frame to the caller's
+// argument.  It stops at the first value that is none of these.
+func (st *walkState) resolve(v ssa.Value, fr *Frame) (ssa.Value, *Frame) {
+	for i := 0; i < 16; i++ {
+		switch x := v.(type) {
+		case *ssa.Phi:
+			if sel, ok := st.phiSel[x]; ok {
+				v = sel
+				continue
+			}
+		case *ssa.Call:
+			if rs, ok := st.callRet[x]; ok {
+				v, fr = rs.v, rs.fr
+				continue
+			}
+		case *ssa.Extract:
+			if call, ok := x.Tuple.(*ssa.Call); ok {
+				if rs, ok := st.tupleRet[call]; ok && x.Index < len(rs) {
+					v, fr = rs[x.Index].v, rs[x.Index].fr
+					continue
+				}
+			}
+		case *ssa.ChangeType:
+			v = x.X
+			continue
+		case *ssa.UnOp:
+			if x.Op != token.MUL {
+				break
+			}
+			addr, afr := x.X, fr
+			if fv, ok := addr.(*ssa.FreeVar); ok && fr != nil && fr.Site != nil {
+				if mc, ok := fr.Site.Common().Value.(*ssa.MakeClosure); ok {
+					for j, f := range fr.Fn.FreeVars {
+						if f == fv && j < len(mc.Bindings) {
+							addr, afr = mc.Bindings[j], fr.Parent
+						}
+					}
+				}
+			}
+			if a, ok := addr.(*ssa.Alloc); ok {
+				if sv, ok := st.cellSel[a]; ok {
+					_ = afr
+					v, fr = sv.v, sv.fr
+					continue
+				}
+			}
+		case *ssa.Parameter:
+			if fr != nil && fr.Parent != nil && fr.Site != nil {
+				hit := false
+				for j, pm := range fr.Fn.Params {
+					if pm == x && j < len(fr.Args) {
+						v, fr = fr.Args[j], fr.Parent
+						hit = true
+					}
+				}
+				if hit {
+					continue
+				}
+			}
+		}
+		break
+	}
+	return v, fr
 }
 
 func (s *Spec) doIf(fr *Frame, b *ssa.BasicBlock, x *ssa.If, st *walkState, emit func(*Trace)) {
@@ -448,7 +580,9 @@ func (s *Spec) doIf(fr *Frame, b *ssa.BasicBlock, x *ssa.If, st *walkState, emit
 				continue
 			}
 		}
-		if ph, isPhi := cond.(*ssa.Phi); isPhi && condFrame == fr {
+		if ph, isPhi := cond.(*ssa.Phi); isPhi {
+			// (also a φ inside the helper whose result is being tested: the helper has just run on
+			// this path, so the recorded selection is the current one)
 			if sel, ok := st.phiSel[ph]; ok {
 				cond = sel
 				continue
@@ -532,7 +666,7 @@ func (s *Spec) assume(cond ssa.Value, pol bool, st *walkState) {
 				x, y = y, x
 			}
 			if isConstNil(y) {
-				if _, known := st.env[x]; !known || st.env[x].K == AUnknown {
+				if s.abs(x, st).K == AUnknown {
 					if eq {
 						st.env[x] = AbsVal{K: ANil}
 					} else {
@@ -759,6 +893,7 @@ func (s *Spec) doCall(fr *Frame, x *ssa.Call, st *walkState, cont func(*walkStat
 		for _, t := range subs {
 			w := st.clone()
 			w.items = append(w.items, t.Items...)
+			w.adopt(t.final)
 			if t.Exit == ExitPanic {
 				s.unwind(fr, w, x, emit)
 				continue
@@ -773,12 +908,27 @@ func (s *Spec) doCall(fr *Frame, x *ssa.Call, st *walkState, cont func(*walkStat
 				}
 			} else if len(t.Ret) > 1 {
 				w.tuple[x] = t.Ret
+				if r, isRet := t.RetInstr.(*ssa.Return); isRet && len(r.Results) == len(t.Ret) {
+					if w.tupleRet == nil {
+						w.tupleRet = map[*ssa.Call][]retSel{}
+					}
+					var rs []retSel
+					for _, rv := range r.Results {
+						rs = append(rs, retSel{v: rv, fr: sub})
+					}
+					w.tupleRet[x] = rs
+				}
 			}
 			w.facts = t.facts
 			if s.RetLabel != nil {
 				if l := s.RetLabel(callee); l != "" {
 					var rs []string
-					for _, r := range t.Ret {
+					sig := callee.Signature.Results()
+					for ri, r := range t.Ret {
+						// a helper answering (context…, error): its verdict is the error
+						if len(t.Ret) > 1 && ri < sig.Len() && sig.At(sig.Len()-1).Type().String() == "error" && ri != sig.Len()-1 {
+							continue
+						}
 						rs = append(rs, r.String())
 					}
 					w.items = append(w.items, Item{Label: l + ":" + strings.Join(rs, ","), Instr: x, Frame: fr})
